@@ -187,6 +187,8 @@ func (c *ltComp) Run(args []string) string {
 	switch args[0] {
 	case "race":
 		return ltRace()
+	case "race2":
+		return ltRace2()
 	case "new":
 		if len(args) != 3 {
 			return "bad-op"
